@@ -18,7 +18,7 @@ RULE = ("class-stratified seeded datetimes over [0001-01-01, 9999-12-31T23:59:59
         "oneof / map-value Timestamp and Duration fields of the matrix schema. Monitors: the (seconds, nanos) read from "
         "the bytes by google.protobuf == reference FromDatetime/FromTimedelta == an independent integer computation; "
         "normalisation ranges; parse returns the identical value / same instant; to_dict string is accepted by the "
-        "reference and (Timestamp) equals ToJsonString(); from_dict of that string returns the value. The conversion "
+        "reference and (Timestamp) equals ToJsonString(); from_dict of that string returns the value. The same instant written with a numeric UTC offset and the same span written with the shortest fraction must be read like the reference's parser reads them. The conversion "
         "contracts on _Timestamp/_Duration run as well. distinct = distinct (kind, position, value).")
 ASSUMPTIONS = [
     "Duration JSON: betterproto prints whole seconds as 'N.000s' (asserted by the repository's own tests); judged by the reference parser "
